@@ -28,7 +28,7 @@ import random as _random
 
 from .. import coqterm as T
 from .. import searchlib as S
-from ..pymap_env import DictEnv, run as run_async
+from ..pymap_env import DictEnv, MaildirEnv, run as run_async
 
 HEADER = ('From PV Require Import Base.Prelude Wire.SeqSet Search.Text Search.Keys Search.Msg '
           'Search.Spec Search.Model Search.SearchCheck.\n')
@@ -55,10 +55,11 @@ def _install_recorder() -> None:
 
 # --------------------------------------------------------------- one mailbox
 class Box:
-    def __init__(self, ctx, rng, ident: int):
+    def __init__(self, ctx, rng, ident: int, backend: str = 'dict'):
         self.ctx = ctx
         self.rng = rng
         self.ident = ident
+        self.backend = backend
         self.script: list[tuple[str, bytes]] = []   # every state-relevant command sent
         self.conns: dict[str, object] = {}
         self.views: list[dict] = []     # {'raw': [...], 'recs': [...], 'queries': [...]}
@@ -131,8 +132,14 @@ class Box:
             q['culprits'] = culprits
 
     async def scenario(self, nq1: int, nq2: int) -> None:
+        env = await (DictEnv() if self.backend == 'dict' else MaildirEnv()).start()
+        try:
+            await self._scenario(env, nq1, nq2)
+        finally:
+            env.close()
+
+    async def _scenario(self, env, nq1: int, nq2: int) -> None:
         rng = self.rng
-        env = await DictEnv().start()
         for who in ('p', 'a', 'b'):
             self.conns[who] = await env.login()
         r = await self.send('p', b'p1 CREATE box\r\n')
@@ -183,7 +190,6 @@ class Box:
         await self.twin_pair(view, gen)
         # ---- more rounds: session b expunges one more message, session a searches again
         for _round in range(2):
-            left = len(view['recs']) if not expunged else None
             r = await self.send('b', b'b4 NOOP\r\n')
             r = await self.send('b', b'b5 SEARCH ALL\r\n')
             alive = [int(x) for ln in r.split(b'\r\n') if ln.startswith(b'* SEARCH') for x in ln[8:].split()]
@@ -249,7 +255,7 @@ def _replay_of(box: Box, q: dict) -> dict:
     script = box.script[:q['script_len']]
     if not script or script[-1][1] != q['wire']:
         script = script + [('a', q['wire'])]
-    return {'box': box.ident, 'script': [[w, d.hex()] for w, d in script],
+    return {'box': box.ident, 'backend': box.backend, 'script': [[w, d.hex()] for w, d in script],
             'wire': q['wire'].decode('latin-1'), 'uid_command': q['uid'], 'program': repr(q['prog'])}
 
 
@@ -400,17 +406,20 @@ def _view_ok_for_model(view: dict) -> str | None:
     return None
 
 
-def section_search(ctx) -> None:
+def section_search(ctx, backend: str = 'dict') -> None:
     _install_recorder()
     rng = ctx.rng
-    n_boxes = ctx.scale(40, 1200)
-    nq1, nq2 = 36, 12
+    if backend == 'dict':
+        n_boxes, nq1, nq2 = ctx.scale(32, 600), 36, 12
+    else:       # maildir: content is loaded on request only (SearchKey.requirement)
+        n_boxes, nq1, nq2 = ctx.scale(8, 100), 24, 8
+    sfx = '' if backend == 'dict' else '_maildir'
     stats = {'queries': 0, 'depth': {}, 'kinds': {}, 'free': 0, 'hits': 0, 'uid_vs_seq': 0,
              'laws': {}, 'hidden_view_queries': 0, 'views': 0, 'messages': 0,
              'views_with_hidden_expunged': 0, 'probe_anomalies': 0}
     box_cases, box_keep = [], []
     for i in range(n_boxes):
-        box = Box(ctx, _random.Random(rng.getrandbits(64)), i)
+        box = Box(ctx, _random.Random(rng.getrandbits(64)), i, backend)
         run_async(box.scenario(nq1, nq2), timeout=300)
         pool: dict = {}
         vterms, vkeep = [], []
@@ -421,9 +430,8 @@ def section_search(ctx) -> None:
             monitor_view(ctx, box, view, stats)
             why = _view_ok_for_model(view)
             for rec in view['recs']:
-                old = pool.setdefault(rec['uid'], rec)
-                if S.content_key(old) != S.content_key(rec):
-                    why = why or f'uid {rec["uid"]}: immutable message data changed between probes'
+                # (maildir: the content of an expunged message vanishes, hence the key)
+                pool.setdefault((rec['uid'], S.content_key(rec)), (len(pool), rec))
             if why is not None:
                 stats['probe_anomalies'] += 1
                 ctx.extra.setdefault('probe_anomalies', []).append(why)
@@ -432,16 +440,29 @@ def section_search(ctx) -> None:
             for q in view['queries']:
                 if q['status'] != b'OK' or q['ids'] is None or q['parsed'] is None:
                     continue
-                try:
-                    sk = T.lst(S.enc_skey(x) for x in q['parsed'])
-                except ValueError as exc:
-                    ctx.disagreement('search_parse', {'wire': q['wire'].decode('latin-1'),
-                                                      'unrepresentable': str(exc)})
-                    continue
+                # parser level, every query: the SearchKey values are those of [compile]
+                # (Python mirror); a sample of them is also checked inside Coq, with
+                # SearchKey.requirement
+                want = {S.py_compile(k) for k in q['prog']}
+                have = {S.canon_skey(x) for x in q['parsed']}
+                if want != have:
+                    ctx.failure('parser_builds_program',
+                                f'the parser built {sorted(have - want, key=repr)[:3]!r} where the program '
+                                f'has {sorted(want - have, key=repr)[:3]!r}',
+                                _replay_of(box, q), {'kind': 'parser_value'})
+                sk = 'None'
+                if want != have or rng.random() < 0.3:
+                    try:
+                        sk = T.option(T.lst(T.pair(S.enc_skey(x), T.N(x.requirement.value))
+                                            for x in q['parsed']))
+                    except ValueError as exc:
+                        ctx.disagreement('search_parse', {'wire': q['wire'].decode('latin-1'),
+                                                          'unrepresentable': str(exc)})
+                        continue
                 qterms.append(T.pair(T.boolean(q['uid']), S.enc_prog(q['prog']),
                                      T.nlist(sorted(q['ids'])), sk))
                 qkeep.append(q)
-            vterms.append(T.pair(S.enc_entries(view['recs']), T.lst(qterms)))
+            vterms.append(T.pair(S.enc_entries(view['recs'], pool), T.lst(qterms)))
             vkeep.append((view, qkeep, qterms))
         box_cases.append(T.pair(S.enc_pool(pool), T.lst(vterms)))
         box_keep.append((box, pool, vkeep))
@@ -449,30 +470,33 @@ def section_search(ctx) -> None:
             q = box.views[0]['queries'][0]
             ctx.sample({'search_wire': q['wire'].decode('latin-1'), 'result': q['ids'],
                         'messages_in_view': len(box.views[0]['recs'])})
-    ctx.extra['search_distribution'] = {
+    ctx.extra['search_distribution' + sfx] = {
         **{k: v for k, v in stats.items() if k not in ('kinds', 'depth', 'laws')},
         'depth_histogram': dict(sorted(stats['depth'].items())),
         'key_histogram': dict(sorted(stats['kinds'].items())),
         'law_checks': stats['laws']}
-    bad = ctx.run_cases('search_boxes', HEADER, 'pool * list (list entry * list query)',
-                        box_cases, 'chk_box', shard=max(1, -(-len(box_cases) // 16)), jobs=16)
+    shard = min(6, max(1, -(-len(box_cases) // 16)))
+    bad = ctx.run_cases('search_boxes' + sfx, HEADER, 'pool * list (list entry * list query)',
+                        box_cases, 'chk_box' + sfx, shard=shard, jobs=16)
     # name the queries of the disagreeing mailboxes
     single, single_keep = [], []
     for bi in bad[:4]:
         box, pool, vkeep = box_keep[bi]
         pt = S.enc_pool(pool)
         for view, qkeep, qterms in vkeep:
-            et = S.enc_entries(view['recs'])
+            et = S.enc_entries(view['recs'], pool)
             for q, qt in zip(qkeep, qterms):
                 single.append(T.pair(pt, et, qt))
                 single_keep.append((box, view, q))
     if single:
-        sbad = ctx.run_cases('search_queries_of_bad_boxes', HEADER, 'pool * list entry * query',
-                             single, 'chk_box_query', shard=max(1, -(-len(single) // 16)), jobs=16)
+        sbad = ctx.run_cases('search_queries_of_bad_boxes' + sfx, HEADER, 'pool * list entry * query',
+                             single, 'chk_box_query' + sfx, shard=max(1, -(-len(single) // 16)),
+                             jobs=16)
         for j in sbad[:8]:
             box, view, q = single_keep[j]
-            ctx.disagreement('search', {'wire': q['wire'].decode('latin-1'), 'impl': sorted(q['ids']),
+            ctx.disagreement('search' + sfx, {'wire': q['wire'].decode('latin-1'), 'impl': sorted(q['ids']),
                                         'uid_command': q['uid'], 'phase': view['phase'],
+                                        'requirements': repr([(k.value, k.requirement) for k in q['parsed']])[:200],
                                         'parser_built': repr([(k.value, k.filter, k.inverse)
                                                               for k in q['parsed']])[:300],
                                         'replay': _replay_of(box, q)})
@@ -653,13 +677,14 @@ def run(ctx) -> None:
     ]
     ctx.check_proofs(['Search/SearchCheck'])
     section_strings(ctx)
-    section_search(ctx)
+    section_search(ctx, 'dict')
+    section_search(ctx, 'maildir')
     section_disabled(ctx)
 
 
 def replay(ctx, obj) -> int:
     async def go():
-        env = await DictEnv().start()
+        env = await (MaildirEnv() if obj.get('backend') == 'maildir' else DictEnv()).start()
         conns = {}
         last = b''
         for who, hexdata in obj.get('script', []):
